@@ -513,9 +513,14 @@ def saved_results(mon, fs, job):
     for k, v in attrs.items():
         if k not in d or not isinstance(got, dict) or k not in got:
             continue
-        if k != "history" and not _same_memory(d[k], v):
+        scalar = k in ("log_evidence", "log_evidence_error")
+        if k != "history" and not scalar and not _same_memory(d[k], v):
+            # a different array object: whether the two agree is decided by
+            # C05 (dictionary vs sampler object)
             differ.append(k)
             continue
+        # the evidence the FlowSampler reports *is* the in-memory result the
+        # file is read against
         c2.value(v, got[k], k)
     info["views_differ"] = differ
     seen = set((p, t, w) for p, t, w, _ in c.diffs)
